@@ -105,7 +105,9 @@ def run(ctx):
                 if a22[0] in (0, 1):
                     judge(ctx, T.contract(T.UNIT), v, spelling)
     for _ in range(ctx.pick(200, 20000) // ctx.nshards):
-        judge(ctx, T.KEY, G.gen_key(rng))
+        k_ = G.gen_key(rng)
+        judge(ctx, T.KEY, k_)
+        ctx.remember(judge, ctx, T.KEY, k_)
         s = G.gen_signature(rng)
         judge(ctx, T.SIGNATURE, s)
         if len(s) == 64:
@@ -156,6 +158,7 @@ def run(ctx):
                 ctx.violation('C10|read-back-differs|tx_rollup_l2_address|txr1', '%s -> %s' % (s, b.value), {'type_expr': {'prim': 'tx_rollup_l2_address'}, 'literal': {'string': s}})
         except Exception as e:
             ctx.violation('C10|read-back-raises|tx_rollup_l2_address|txr1', repr(e)[:200], {'type_expr': {'prim': 'tx_rollup_l2_address'}, 'literal': {'string': B.encode(d, 'txr1')}})
+    ctx.run_again()
     ctx.require('to_optimized', 200)
     ctx.require('read_back', 200)
 
